@@ -84,9 +84,65 @@ Theorem c15_error_only_if_source_fired : forall eqv v0 es a x w v e,
   | ECanceled => v = 0%N /\ (ctxc x = true \/ eclosed x = true)
   | EErrCh => v = 0%N /\ esent x = true
   | EValid => v = 0%N /\ exists y, In y (held s x) /\ cond eqv w y = VErr
+  | ECb => v = 0%N /\ is_watch w = true
   end.
 Proof. exact error_only_if_source_fired. Qed.
 Print Assumptions c15_error_only_if_source_fired.
+
+(* ---- WatchChanges (watchable.go): rounds of WaitValueChange(current) + user callback ---- *)
+
+(* The shape of a round in the model: a watcher's sample is evaluated with the condition of WaitValueChange current
+   (block, or enter the callback with the sample); when the callback returns nil the next round begins at the entry
+   gate with current := the delivered value and [held] restarting at the present content; when it returns an error
+   WatchChanges returns it. *)
+Theorem c15_watch_delivery : forall eqv s a x cur v ch,
+  nth_error (acts s) a = Some x -> pc x = WSampled (WWatch cur) v ch ->
+  step eqv s (Eval a) =
+  with_acts s (set_nth (acts s) a (set_pc x (if compare eqv cur v then WBlocked (WWatch cur) v ch else WCb (WWatch cur) v))).
+Proof. exact watch_delivery. Qed.
+Print Assumptions c15_watch_delivery.
+
+Theorem c15_watch_callback_return : forall eqv s a x w v,
+  nth_error (acts s) a = Some x -> pc x = WCb w v ->
+  step eqv s (CbRet a false) = with_acts s (set_nth (acts s) a (set_pc_start x (WGate (WWatch v)) (length (vh s) - 1))) /\
+  step eqv s (CbRet a true) = with_acts s (set_nth (acts s) a (set_pc x (WRet w 0 ECb))).
+Proof. exact watch_callback_return. Qed.
+Print Assumptions c15_watch_callback_return.
+
+(* Every callback invocation: only a watcher is ever inside a callback, the value it was called with was held by the
+   cell during this round's wait (since the previous callback returned, or since the call in the first round) and
+   differs, under the container's equality, from the watcher's current value (the initial value, then the value
+   delivered in the previous round). *)
+Theorem c15_watch_callback_value : forall eqv v0 es a x w v,
+  let s := run eqv v0 es in
+  nth_error (acts s) a = Some x -> pc x = WCb w v ->
+  exists cur, w = WWatch cur /\ In v (held s x) /\ compare eqv cur v = false.
+Proof. exact watch_callback_value. Qed.
+Print Assumptions c15_watch_callback_value.
+
+(* At quiescence a watcher is not blocked in its wait while the content differs from its current value. *)
+Theorem c15_watcher_quiescent : forall eqv v0 es a x cur u ch,
+  let s := run eqv v0 es in
+  quiescent s = true -> nth_error (acts s) a = Some x -> pc x = WBlocked (WWatch cur) u ch ->
+  u = val s /\ compare eqv cur (val s) = true.
+Proof. exact watcher_quiescent. Qed.
+Print Assumptions c15_watcher_quiescent.
+
+(* WatchChanges returns only an error: Canceled / the error channel's error only if that source fired (at any time
+   during the WatchChanges call), or the callback's own error; never nil, never a validator error.  Nobody but a
+   watcher returns a callback error. *)
+Theorem c15_watcher_returns : forall eqv v0 es a x w v e,
+  let s := run eqv v0 es in
+  nth_error (acts s) a = Some x -> pc x = WRet w v e ->
+  if is_watch w then v = 0%N /\ match e with
+                               | ECanceled => ctxc x = true \/ eclosed x = true
+                               | EErrCh => esent x = true
+                               | ECb => True
+                               | ENone | EValid => False
+                               end
+  else e <> ECb.
+Proof. exact watcher_returns. Qed.
+Print Assumptions c15_watcher_returns.
 
 (* The monitors are tied to the model: for every event list, running the monitors on the model's own observations
    (along the schedule-level step the correspondence replays) reports nothing; and the whole checker accepts the
@@ -133,6 +189,45 @@ Example c15_example_custom_equality :
                                  Call (OSwap (FConst 5)); Sect 2; ErrClose 0; ErrWake 0] in
   val s = 1%N /\ map pc (acts s) = [WRet (WChange 1) 0 ECanceled; PDone (OSet 3) 0; PDone (OSwap (FConst 5)) 5].
 Proof. vm_compute. split; reflexivity. Qed.
+
+(* WatchChanges(initial = 0) on a cell holding 0: blocks; SetValue 5 wakes it, the callback is entered with 5; it
+   returns nil, the next round (current = 5) blocks at quiescence; SetValue 6: callback with 6, which fails *)
+Example c15_example_watch :
+  let s1 := run noeq 0 [CallWait (WWatch 0) false; Sect 0; Eval 0; Call (OSet 5); Sect 1; Wake 0; Sect 0; Eval 0] in
+  let s2 := fold_left (step noeq) [CbRet 0 false; Sect 0; Eval 0] s1 in
+  let s3 := fold_left (step noeq) [Call (OSet 6); Sect 2; Wake 0; Sect 0; Eval 0; CbRet 0 true] s2 in
+  map pc (acts s1) = [WCb (WWatch 0) 5; PDone (OSet 5) 0] /\
+  map pc (acts s2) = [WBlocked (WWatch 5) 5 1; PDone (OSet 5) 0] /\ quiescent s2 = true /\
+  map (held s2) (acts s2) = [[5]; [0; 5]]%N /\
+  map pc (acts s3) = [WRet (WWatch 5) 0 ECb; PDone (OSet 5) 0; PDone (OSet 6) 0].
+Proof. vm_compute. repeat split; reflexivity. Qed.
+
+(* initial value unequal to the cell: the callback is entered at once with the content; equality mod 2: a write of
+   an "equal" value is not stored and not delivered *)
+Example c15_example_watch_custom_equality :
+  let s := run (eq_of_code 1) 3 [CallWait (WWatch 0) true; Sect 0; Eval 0; CbRet 0 false; Call (OSet 5); Sect 1; Sect 0; Eval 0] in
+  val s = 3%N /\ map pc (acts s) = [WBlocked (WWatch 3) 3 0; PDone (OSet 5) 0].
+Proof. vm_compute. split; reflexivity. Qed.
+
+(* the monitors accept a correct observed trace of a watcher and reject a second delivery of the same value
+   (clause 4: the delivered value does not differ from current) and a value never held (clause 3) *)
+Example c15_example_monitor_accepts_watch :
+  run_check_ccontainer [0; 0]%N
+    [[8; 0; 0]; [5; 0]; [5; 0]; [2; 5]; [5; 1]; [5; 0]; [5; 0]; [9; 0; 0]; [5; 0]; [5; 0]; [2; 6]; [5; 2]; [5; 0]; [5; 0]; [9; 0; 1]]%N
+    [[1]; [7]; [2]; [2; 1]; [1; 3]; [7; 3]; [90; 3]; [1; 3]; [7; 3]; [2; 3]; [2; 3; 1]; [1; 3; 3]; [7; 3; 3]; [106; 3; 3]; [11; 3; 3]]%N = [].
+Proof. vm_compute. reflexivity. Qed.
+Example c15_example_monitor_rejects_repeated_delivery :
+  existsb (fun i => match i with PropFalse 15 4 9 => true | _ => false end)
+    (run_check_ccontainer [0; 0]%N
+       [[8; 0; 0]; [5; 0]; [5; 0]; [2; 5]; [5; 1]; [5; 0]; [5; 0]; [9; 0; 0]; [5; 0]; [5; 0]]%N
+       [[1]; [7]; [2]; [2; 1]; [1; 3]; [7; 3]; [90; 3]; [1; 3]; [7; 3]; [90; 3]]%N) = true.
+Proof. vm_compute. reflexivity. Qed.
+Example c15_example_monitor_rejects_undelivered_unheld :
+  existsb (fun i => match i with PropFalse 15 3 2 => true | _ => false end)
+    (run_check_ccontainer [0; 0]%N
+       [[8; 0; 0]; [5; 0]; [5; 0]]%N
+       [[1]; [7]; [122]]%N) = true.
+Proof. vm_compute. reflexivity. Qed.
 
 (* the monitors accept a correct observed trace and reject a lost update (clause 2), a returned value that was
    never held (clause 3) and a waiter left blocked at quiescence (clause 5) *)
